@@ -55,4 +55,14 @@ CHECKS['C19'] = {
   'technique': 'call-site table over resolved header_init calls, macro witnesses, symbolic layout comparison, guard dominance',
 }
 
+CHECKS['C06'] = {
+  'text': 'Interprocedural must-pass analysis: from every deletion entry point, through the constant-specialised switch in '
+          'del_by and the validated type-class dispatch into the collector, every normal exit must pass '
+          'dealloc(destruct(p)) exactly once; plus ordering (destruct before dealloc at every release site), pairing in the '
+          'sweep (append once / finalise every pending entry), and creation/teardown pairing in main, worker threads and '
+          'the collector destructor. Four exit classes that skip finalisation are genuine defects recorded as known findings.',
+  'note': ASSUME + '; does not account individual malloc/free blocks',
+  'technique': 'interprocedural path enumeration with equality tracking and constant specialisation; must-pass cuts; dispatch validation',
+}
+
 NOT_APPLICABLE = {}
